@@ -23,7 +23,7 @@ type vPingStore struct {
 func (s *vPingStore) Save(context.Context, string, []byte, time.Duration) error { return nil }
 func (s *vPingStore) Load(context.Context, string) ([]byte, error)              { return nil, vErrStore }
 func (s *vPingStore) Clear(context.Context, string) error                       { return nil }
-func (s *vPingStore) Lock(string) sessionsapi.Lock                               { return nil }
+func (s *vPingStore) Lock(string) sessionsapi.Lock                              { return nil }
 func (s *vPingStore) VerifyConnection(context.Context) error {
 	s.pings++
 	if ndBool("store-unreachable") {
